@@ -1110,6 +1110,7 @@ func checkC15(w *World, r *Report) {
 	pat := ""
 	textIntactRule(w, r, "C15.text-intact")
 	printerRules(w, r, "C15.one-escaper")
+	constFormatRule(w, r, "C15.const-format")
 	r.rule("C15.verbatim", "the preamble line matched against the pattern is a piece of the text that was passed in, cut out only by operations that return part of their input unchanged (Cut, Trim…, slicing): a value's characters, including runs of blanks inside strings, reach the reader as they were written")
 	nvb := 0
 	for _, b := range rwpBlocks {
